@@ -376,13 +376,54 @@ def sched_engine(prop, tier, seed, work, known):
     gates = ae.build_drive()
     res = {"name": "c05sched", "evaluations": 0, "distinct_nontrivial": 0, "samples": [], "violations": [],
            "disagreements": [], "known_hits": []}
+    # ---- model schedules (coq/ATP/Client.v, extracted) of sessions with NON-TERMINAL messages that carry a run id (non-fatal
+    # error reports, emitted signals, unknown ids) forced on the real client gate by gate: every Execute must return what the
+    # model says (C05_client_routes_by_run_id: a result comes from a terminal message for that call's run id only)
+    mcases = os.path.join(work, "c05m.cases")
+    ae.gen_cases("c05m", tier, seed, mcases)
+    scheds = ae.model_schedules(mcases, os.path.join(work, "c05m.pred"))
+    items, expected, sess = [], {}, {}
+    for cid, session, ss in scheds:
+        for k, (steps, final, complete, flightok, lostbuf) in enumerate(ss):
+            if not complete or lostbuf >= 0:
+                continue
+            i = "%s.%d" % (cid, k)
+            items.append((i, session, steps))
+            expected[i] = final
+    mobs = ae.replay(items, os.path.join(work, "c05replay"))
+    n_model = 0
+    for i, session, steps in items:
+        o = mobs[i]
+        case = "(sched %s %s %s)" % (i, session, steps)
+        n_model += 1
+        cr = props_c06.crash_text(o)
+        dv = ae.diverged(o)
+        got = props_c06._results(o)[0] if o.startswith("(final") else (props_c06._results(dv["final"])[0] if dv and dv["final"] else None)
+        want = props_c06._results(expected[i])[0]
+        if cr:
+            res["violations"].append(("atpclient", case, o[:600], expected[i], cr + " - model schedule forced gate by gate on the real client"))
+        elif got is not None and [(r_, c_) for r_, c_, _ in got] != [(r_, c_) for r_, c_, _ in want]:
+            bad = [(g, w) for g, w in zip(got, want) if g[:2] != w[:2]][0]
+            tail = ""
+            if dv:
+                tail = "; it left the model's schedule at step %s (%s: expected %s, found %s)" % (dv["idx"], dv["role"], dv["want"], dv["got"])
+            res["violations"].append(("atpclient", case, o, expected[i],
+                                      "Execute for run %r returned class %s; the proved client model (coq/ATP/Client.v, every result comes from a "
+                                      "terminal message for that call's run id) says %s under the same schedule and the same peer messages "
+                                      "(non-terminal messages with a run id: notices / signals / unknown ids) - schedule forced gate by gate on the "
+                                      "real client%s" % (bad[0][0], bad[0][1], bad[1][1], tail)))
+        elif o != expected[i]:
+            res["disagreements"].append(("atpclient", case, o, expected[i]))
+        else:
+            res["traces_validated_against_impl"] = res.get("traces_validated_against_impl", 0) + 1
     xl = ae.gen_cases("c05x", tier, seed, os.path.join(work, "c05x.cases"))
     xr = ae.explore(xl, os.path.join(work, "c05explore"))
     trials, kinds = props_c06.judge_explore(xl, xr, res, "scripted peer that answers every accepted work start once; C05: "
                                             "results are never lost, duplicated or delivered to another call")
-    res["evaluations"] = trials
-    res["distinct_nontrivial"] = trials
-    res["stats"] = {"gates": gates, "explore_sessions": len(xl), "explore_trials": trials, "explore_sessions_by_kind": kinds,
+    res["evaluations"] = trials + n_model
+    res["distinct_nontrivial"] = trials + n_model
+    res["stats"] = {"gates": gates, "model_schedules_replayed (sessions with notices / signals / unknown ids before the terminal message)": n_model,
+                    "explore_sessions": len(xl), "explore_trials": trials, "explore_sessions_by_kind": kinds,
                     "rule": "one trial = one gate-by-gate schedule of one session on the real client (delay-bounded: every step "
                             "delayed singly and in pairs up to a count; or seeded random)"}
     return res
